@@ -14,7 +14,7 @@ classes (2) observed for it; those are the open findings of known_findings.d/C04
 import os, sys, random, collections, json, hashlib
 import vlib, progen, langlib, lang_findings
 import tc_common as T
-import c02, c05
+import c02, c05, c04_matrix
 
 
 def hand_witnesses():
@@ -133,6 +133,9 @@ def run(ck):
                 ck.fail(key, 'the real type checker refuses a program that breaks no static rule (%s)' % v, rep)
             elif ref == 'ok' and fails:
                 ck.fail(key, 'accepted well-typed program ends in an internal failure: ' + json.dumps(fails), rep)
+        # ---- 1b. construct x context matrix (independent of progen): every accepted cell through both backends
+        for key, what, rep in c04_matrix.run_matrix(ck, b, probe, wd, ck.thorough):
+            ck.fail(key, what, rep)
         # ---- 2. generated well-typed programs: acceptance on both sides, then both real backends
         cfg = c02.stream_cfg(ck)
         nprog = 120 if ck.thorough else 32
@@ -259,6 +262,8 @@ def replay(ck, d):
     print('type_check:', v, T.diag_titles(err))
     with langlib.Work('replay') as wd:
         obs, fails = backends(b, wd, 'r', src)
+    if 'construct' in d:
+        fails = c04_matrix.classify(obs)[0]
     for t, o in brief(obs).items():
         print(t, o)
     ref = d.get('reference_checker')
